@@ -277,6 +277,16 @@ def safe_close(x):
     """Safely attempts to close an object."""
     if not isinstance(x, io.IOBase):
         return
+    if (
+        x is sys.stdin
+        or x is sys.stdout
+        or x is sys.stderr
+        or x is sys.__stdout__
+        or x is sys.__stderr__
+    ):
+        # a stream slot may hold the session's own stream (``$(cmd o>e)``
+        # puts sys.stderr into the stdout slot): never close those
+        return
     if x.closed:
         return
     try:
